@@ -13,7 +13,10 @@ REAL helper (register_clkin / create_clkout / do_finalize, which calls compute_c
                     the independent interval-intersection search of c20_ref.py finds a setting inside the same
                     declared ranges.
 
-Exact rationals with the relative guard band eps = 1e-9 of DESIGN 4b (widened for (i), narrowed for (ii))."""
+Exact rationals with the relative guard band eps = 1e-9 of DESIGN 4b (widened for (i), narrowed for (ii)).
+
+The Efinix helpers (TRIONPLL / TITANIUMPLL) run on a stub of the vendor platform object and have their own reference
+(different PLL structure: pre-divider, multiplier, post-divider, feedback through one output divider): c20_efinix.py."""
 import fsmc  # noqa: F401
 import itertools, json, time, re
 from fractions import Fraction as Fr
@@ -32,7 +35,8 @@ RULE = ("one configuration per (helper class, speed grade / device / variant); i
         "range ends, extreme achievable outputs, awkward and round values, smaller sub-grids for n >= 2) x margin tuples "
         "over {0, 1e-4, 1e-2} (all pairs for n = 2 in thorough, uniform and mixed tuples otherwise) x phase pattern "
         "{0, 90}; input frequencies above a per-family cut get single-output requests only (a refused request costs the "
-        "helper a full scan).  Every request goes through the real register_clkin / create_clkout / do_finalize -> "
+        "helper a full scan); TRIONPLL additionally x which output is the feedback (every index, phases from its "
+        "per-phase divider table).  Every request goes through the real register_clkin / create_clkout / do_finalize -> "
         "compute_config.  evaluations = requests run.  A request is distinct by (class, variant, fin, ((f, phase, "
         "margin)...), flags) (duplicates are dropped before running) and non-trivial when it returned a configuration "
         "(then fully re-verified: recomputed frequencies, ranges, emitted instance) or was refused by compute_config "
@@ -51,7 +55,10 @@ ASSUMPTIONS = [
     "ECP5PLL variant 'dpa': expose_dpa() and uses_dpa=True on every output but the first (as test_clock does); Xilinx/Intel variant 'vco_margin=x': the public attribute set after construction",
     "oscillators with a programmable divider are included as single-stage models (NXOSCA: 450 MHz/(div+1) for HFCLKOUT and HFSDCOUT; GW1NOSC: 250 MHz, 210 MHz on GW1N-4, divided by FREQ_DIV in range(*osc_div_range); GW1NOSC has no configuration object separate from the emitted instance)",
     "GateMatePLL computes no dividers (REF_CLK/OUT_CLK go to the primitive in MHz, the vendor tool derives the rest): modelled as base frequency = lowest request, ports CLK0/CLK90 = base, CLK180/CLK270 = base or 2*base (doubler), margin 0; legal requests use each phase/port once",
-    "not covered: TRIONPLL/TITANIUMPLL (need an Efinity installation for the platform object)",
+    "TRIONPLL/TITANIUMPLL (checks/c20_efinix.py): the platform object is the repository's EfinixPlatform with only its constructor replaced (tool discovery and the pin data base need an Efinity installation; every method the helpers call is the real one, the interface writer is the real InterfaceWriter), clock input internal (CORE), output 0 on a ClockDomain and the others bare PLL outputs; the 'emitted primitive' is the Efinity interface script of InterfaceWriter.generate_pll (M, N, O, CLKOUTi_DIV, CLKOUTi_PHASE, FEEDBACK_CLK/MODE, REFCLK_FREQ, pin names)",
+    "TRIONPLL relations as quoted in compute_config's comments (Trion data sheet): fPFD = fin/N, fVCO = fPFD*M*O*Cfbk, fPLL = fVCO/O, fout_i = fPLL/C_i, Cfbk = divider of the is_feedback output; N 1..15, M 1..255, O in {1,2,4,8}, C 1..256, M*O*Cfbk <= 255 (literals of the source); PFD/VCO/PLL windows and the per-phase divider menus are the class's own get_pfd/vco/pll_freq_range / get_c_range tables (they ignore the device argument: both Trion devices see the same limits); completeness mirrors the source's literal 'O in {2,4,8} when more than one output is declared' (a returned configuration may use any O of {1,2,4,8}); a phase outside the class's table has an empty divider menu (the helper raises KeyError: a refusal)",
+    "Efinix refusals: AssertionError from `assert len(final_list) != 0` is the helper's 'no configuration'; any other exception (ZeroDivisionError when no (O, Cfbk) pair fits the requested feedback frequency, KeyError for an unknown phase) and quit()/SystemExit count as a refusal too and are blamed only when the reference finds a setting (rule complete.crash.<type>); completeness rules carry the suffix .margin when the only settings are inexact ones inside the requested margins (compute_config compares frequencies for equality and never reads the margins) and .passthrough for a refused request that LiteX does not compute at all",
+    "not covered: divider computation for TITANIUMPLL (version V3) and for TRIONPLL without an is_feedback output - LiteX computes none (do_finalize returns, the vendor tool's auto_calc_pll_clock does it when the interface script runs); for those requests only 'nothing is invented and the script carries the request unchanged' is checked (rules pass.*); external (pin) clock inputs, LVDS inputs and dynamic phase shift pads of the Efinix helpers (need the Efinity pin data base)",
     "tracer shim (names only)",
 ]
 MAXTASKS = 4
@@ -341,18 +348,18 @@ class EfinixGrid:
     IN = dict(quick=[25e6, 100e6, 400e6],
               thorough=[12e6, 25e6, 27e6, 33.333e6, 50e6, 74.25e6, 100e6, 125e6, 200e6, 400e6, 800e6])
     Z = dict(
-        quick=dict(n1=7, n2=3, n3=3, awk3=False, in2=(25e6, 100e6, 400e6), in3=(25e6, 100e6),
+        quick=dict(n1=7, n2=3, n3=3, awk3=False, in2=(25e6, 100e6), in3=(25e6,),
                    p1=((0, MARGINS), (90, (0,)), (180, (0,)), (45, (0,))),
-                   c2=(((0, 0), (0, 0)), ((0, 90), (0, 0)), ((0, 0), (1e-2, 0)), ((0, 90), (1e-2, 0))),
-                   c3=(((0, 0, 0), (0, 0, 0)), ((0, 0, 90), (0, 0, 0)), ((0, 0, 90), (1e-2, 1e-4, 0)))),
+                   c2=(((0, 0), (0, 0)), ((0, 90), (0, 0)), ((0, 0), (1e-2, 1e-2)), ((0, 90), (1e-2, 0))),
+                   c3=(((0, 0, 0), (0, 0, 0)), ((0, 0, 90), (1e-2, 1e-4, 0)))),
         light=dict(n1=7, n2=3, n3=3, awk3=False, in2=(100e6,), in3=(100e6,),
-                   p1=((0, (0, 1e-2)), (90, (0,))),
+                   p1=((0, (0,)), (90, (0,))),
                    c2=(((0, 0), (0, 0)), ((0, 90), (0, 0))),
                    c3=(((0, 0, 90), (0, 0, 0)),)),
-        thorough=dict(n1=16, n2=5, n3=3, awk3=True, in2=None, in3=None,
+        thorough=dict(n1=16, n2=4, n3=3, awk3=True, in2=None, in3=(12e6, 25e6, 50e6, 100e6, 400e6),
                       p1=((0, MARGINS), (90, MARGINS), (45, (0,)), (135, (0,)), (180, (0, 1e-2)), (270, (0,)), (30, (0,))),
                       c2=tuple((ps, ms) for ps in ((0, 0), (0, 90), (180, 0), (90, 270))
-                               for ms in ((0, 0), (1e-4, 1e-4), (1e-2, 1e-2), (1e-2, 0), (0, 1e-2))),
+                               for ms in ((0, 0), (1e-2, 1e-2), (1e-2, 0))),
                       c3=tuple((ps, ms) for ps in ((0, 0, 0), (0, 0, 90), (180, 0, 0))
                                for ms in ((0, 0, 0), (1e-2, 1e-2, 1e-2), (1e-2, 1e-4, 0)))))
 
@@ -412,7 +419,7 @@ class EfinixGrid:
             for f in self.out2[1:3]:                                       # no feedback output: pass-through
                 yield Req(fin, [(f, 0, 0)], ("nofb",))
                 yield Req(fin, [(f, 0, 0), (f / 2, 90, 0)], ("nofb",))
-            if z["in2"] is None or fin in z["in2"] or fin == lo_in:
+            if z["in2"] is None or fin in z["in2"] or (fin == lo_in and z is not self.Z["light"]):
                 for fs in itertools.product(self.out2, repeat=2):
                     for ps, ms in z["c2"]:
                         for fb in range(2):
@@ -450,6 +457,8 @@ def jsonable_config(cfg):
 def witness_json(w):
     if w is None:
         return None
+    if "note" in w:
+        return dict(note=w["note"])
     d = dict(input_div=_s(w["D"]), mult=_s(w["M"]), vco_or_source_hz=float(w["src"]), pfd_hz=float(w["pfd"]),
              out_dividers=[_s(p[2]) for p in w["picks"]])
     for k in ("clkfb_div", "fb_div", "fb", "postdiv_O", "pll_hz"):
@@ -610,4 +619,5 @@ def extra_coverage(results):
         for k, v in (r.get("cover") or {}).items():
             tot[k] = tot.get(k, 0) + v
     return dict(cover_total=tot, helper_classes=sorted(set(str(r.get("cfg", "")).split("[")[0] for r in results)),
-                not_covered=["TRIONPLL", "TITANIUMPLL"])
+                not_covered=["TITANIUMPLL / TRIONPLL without feedback output: dividers are computed by the Efinity tool, not by LiteX "
+                             "(pass-through of the request checked only)"])
